@@ -56,4 +56,8 @@ func (Keeper).CalculateBaseFee
     ensures decrease: enabled && h != p.EnableHeight && T <= 18446744073709551615 && g < T
             ==> result != nil && *result == imax(b - ((b * (T - g)) / T) / den, floor)
     ensures fresh_result: result != nil ==> fresh(result)
+    // `if parentBaseFee == nil { return nil }`: sdkmath.Int.BigInt() of a stored (non-nil) Int is never nil
+    unreachable return7
+    // `if !parentGasTargetBig.IsUint64() { return nil }`: the gas limit is at most 2^64-1 and the multiplier at least 1
+    unreachable return2
 @*/
